@@ -43,9 +43,11 @@ SHALLOW_COPY_FUNCS = {"builtins.list", "copy.copy", "builtins.reversed", "builti
                       "itertools.chain.from_iterable", "builtins.iter"}
 # may return (a view of) their first argument
 VIEW_FUNCS = {"numpy.asarray", "numpy.transpose", "numpy.reshape", "numpy.ravel", "numpy.squeeze", "numpy.atleast_1d", "numpy.atleast_2d",
-              "numpy.asanyarray", "numpy.ascontiguousarray", "numpy.swapaxes", "numpy.diagonal", "numpy.real", "numpy.broadcast_to"}
+              "numpy.asanyarray", "numpy.ascontiguousarray", "numpy.swapaxes", "numpy.diagonal", "numpy.real", "numpy.broadcast_to",
+              "numpy.ma.getdata", "numpy.ma.getmaskarray", "numpy.ma.getmask", "numpy.asfortranarray", "numpy.lib.stride_tricks.as_strided",
+              "numpy.lib.stride_tricks.sliding_window_view", "numpy.moveaxis", "numpy.expand_dims", "numpy.flip"}
 VIEW_METHODS = {"reshape", "ravel", "transpose", "squeeze", "view", "diagonal", "swapaxes", "astype_nocopy"}
-VIEW_ATTRS = {"T", "real", "imag", "flat"}
+VIEW_ATTRS = {"T", "real", "imag", "flat", "data", "mask", "base"}
 IMMUTABLE_ATTRS = {"shape", "size", "ndim", "dtype", "itemsize", "nbytes"}
 FRESH_METHODS = {"copy", "astype", "tolist", "sum", "mean", "min", "max", "flatten", "dot", "get", "result", "predict", "fit_predict",
                  "keys", "values", "items", "format", "join", "split", "all", "any", "argmin", "argmax", "item", "conj"}
